@@ -297,6 +297,8 @@ def run(chk):
         missing_column_calibrations(chk, exe, rng)
     if not chk.violations:
         scaled_calibrations(chk, exe, rng, 1 if quick else 10)
+    if not chk.violations:
+        reference_matrices(chk, exe, rng, 1 if quick else 12)
     if broken and not chk.violations:
         chk.violation('obligation', 'proof/correspondence obligations that no longer check:\n' + '\n'.join(broken[:30]), nofail=True)
 
@@ -391,6 +393,75 @@ def scaled_calibrations(chk, exe, rng, reps):
                 return
             chk.count('scaled_calibration_ok')
             chk.distinct.add(('scaledcal', typ, n, small))
+
+
+def reference_matrices(chk, exe, rng, reps):
+    """a/b form with structured reference matrices: a pure phase rotation (a = j: the determinant has no real part), a quadrature pair
+    [[1, j], [1, -j]], swapped reference channels, a gain of 1e-3 or 1e3 — all perfectly conditioned.  M = B A^-1 is what it is with any
+    other regular A: the standards are accepted, the calibration solves, and a device (read through references of the same kind) is recovered"""
+    from props import calsim
+
+    def ref(n):
+        k = rng.choice(['phase', 'quadrature', 'swap', 'gain', 'jI', 'mixed'])
+        if k == 'phase' or (k in ('quadrature', 'swap') and n == 1):
+            A = np.diag([rng.choice([1j, -1j, -1.0, 1j * rng.uniform(0.5, 2), np.exp(1j * rng.uniform(-3, 3))]) for _ in range(n)])
+        elif k == 'quadrature':
+            A = np.eye(n, dtype=complex)
+            A[:2, :2] = np.array([[1, 1j], [1, -1j]])
+        elif k == 'swap':
+            A = np.eye(n, dtype=complex)[::-1].copy()
+        elif k == 'gain':
+            A = np.eye(n, dtype=complex) * rng.choice([1e-3, 1e3, 1e-3j, 1e3j])
+        elif k == 'jI':
+            A = 1j * np.eye(n, dtype=complex)
+        else:
+            A = np.diag([rng.choice([1j, 1.0, -1.0, 2j]) for _ in range(n)]).astype(complex)
+        return k, A
+    for rep in range(reps):
+        for typ in calsim.TYPES:
+            for n in (1, 2) if typ in ('T16', 'U16') else (1, 2, 3):
+                if typ in ('T16', 'U16') and n == 1:
+                    continue
+                sc = calsim.Scenario(rng, typ, n, n, 1, form='ab').begin()
+                kinds = []
+
+                def ab_fn(Mf, cols, typ=typ, kinds=kinds):
+                    A, B = [], []
+                    for M in Mf:
+                        k, a = ref(cols)
+                        kinds.append(k)
+                        if typ in ('UE14', 'E12'):
+                            a = np.array([[a[c, c] if a[c, c] != 0 else 1j for c in range(cols)]])
+                            A.append(a)
+                            B.append(M * a)
+                        else:
+                            A.append(a)
+                            B.append(M @ a)
+                    return calsim.cells(A), calsim.cells(B)
+                sc.ab_fn = ab_fn
+                sc.solt().solve().add_calibration(b'c')
+                dut = sc.random_dut()
+                sc.lines += [sc.apply_line(0, dut), 'cal free 0', 'cal live']
+                out, rc, err = vlib.run_lines(exe, sc.lines, timeout=300)
+                chk.evaluations += 1
+                tag = '%s %dx%d in a/b form, reference matrices of kinds %s' % (typ, n, n, sorted(set(kinds)))
+                if rc != 0 or len(out) != len(sc.lines):
+                    chk.violation('sanitizer-reference', '%s: crashed / sanitizer report:\n%s' % (tag, err[-1000:]), sc.lines[:len(out) + 1])
+                    return
+                bad = [(l, o) for l, o in zip(sc.lines, out) if not o.startswith('ok')]
+                if bad:
+                    chk.violation('reference-refused', '%s: `%s` -> %s (the reference matrix is regular and perfectly conditioned)' % (tag, bad[0][0][:60], bad[0][1][:60]),
+                                  sc.lines[:sc.lines.index(bad[0][0]) + 1])
+                    return
+                ok, S = calsim.parse_apply(out[-3], n)
+                e = float(np.abs(S[0] - dut[0]).max()) if ok else float('inf')
+                if not e <= 1e-7:
+                    chk.violation('reference-wrong', '%s: the device is recovered with error %.3e' % (tag, e), sc.lines[:-2])
+                    return
+                chk.count('reference_matrix_calibration_ok')
+                for k in set(kinds):
+                    chk.count('reference_' + k)
+                chk.distinct.add(('reference', typ, n, tuple(sorted(set(kinds)))))
 
 
 def missing_column_calibrations(chk, exe, rng):
